@@ -73,7 +73,9 @@ impl Default for SpecCfg {
 
 /// raw random material -> wellformed ModelSpec (construction, no rejection)
 pub fn spec_from_raw(cfg: SpecCfg, m_pick: u16, kinds: &[(u16, u16)], p_pick: u16, slots: &[u16], dup: u16) -> ModelSpec {
-    let m = 1 + pick(m_pick, cfg.max_m);
+    // occasionally (1/16) more basis functions than the usual bound (up to max_m + 6)
+    let m = if cfg.allow_duplicates && m_pick & 0xF == 0xF { cfg.max_m + 1 + pick(m_pick, 6) } else { 1 + pick(m_pick, cfg.max_m) };
+    let big = m > cfg.max_m;
     let mut ks: Vec<Kind> = (0..m)
         .map(|j| {
             let (a, b) = kinds[j % kinds.len()];
@@ -89,7 +91,7 @@ pub fn spec_from_raw(cfg: SpecCfg, m_pick: u16, kinds: &[(u16, u16)], p_pick: u1
     }
     let max_arity = ks.iter().map(|k| k.arity()).max().unwrap();
     let total: usize = ks.iter().map(|k| k.arity()).sum();
-    let p_hi = total.min(cfg.max_p).max(max_arity);
+    let p_hi = total.min(if big { cfg.max_p + 4 } else { cfg.max_p }).max(max_arity);
     let p = max_arity + pick(p_pick, p_hi - max_arity + 1);
     // slots in term order
     let mut terms: Vec<Term> = ks.iter().map(|&k| Term { kind: k, args: vec![usize::MAX; k.arity()] }).collect();
@@ -123,7 +125,7 @@ pub fn spec_from_raw(cfg: SpecCfg, m_pick: u16, kinds: &[(u16, u16)], p_pick: u1
     }
     let mut spec = ModelSpec { p, terms };
     // deliberate exact duplicate of a parametric term (rank deficiency by construction)
-    if cfg.allow_duplicates && pick(dup, 16) == 0 && spec.terms.len() < cfg.max_m {
+    if cfg.allow_duplicates && pick(dup, 16) == 0 && (spec.terms.len() < cfg.max_m || big) {
         if let Some(t) = spec.terms.iter().find(|t| t.kind.arity() > 0).cloned() {
             spec.terms.push(t);
         }
@@ -357,8 +359,9 @@ pub fn case_from_raw(cfg: CaseCfg, spec: ModelSpec, raw: RawCase) -> ProblemCase
     {
         let (n_pick, s_pick, xkind, us, ys, wclass, epsclass, epsu, flags, collide) = raw;
         let m = spec.m();
-        let n = m + pick(n_pick, cfg.max_n - m + 1);
-        let s = if s_pick % 3 == 0 { 1 } else { 1 + pick(s_pick, cfg.max_s) };
+        // occasionally (1/16) many more samples, (1/32) many more right-hand sides than usual
+        let n = if n_pick & 0xF == 0xF { m + cfg.max_n + pick(n_pick, 4 * cfg.max_n) } else { m + pick(n_pick, cfg.max_n.max(m) - m + 1) };
+        let s = if s_pick % 3 == 0 { 1 } else if s_pick & 0x1F == 0x1F && cfg.max_s > 1 { cfg.max_s + 1 + pick(s_pick, 8) } else { 1 + pick(s_pick, cfg.max_s) };
         let x = x_from_raw(xkind, n, &us);
         let alpha = alpha_tame(&spec, &us[8..], if cfg.collisions { [1u8, 2, 2, 0, 0, 0, 0, 0][pick(collide, 8)] } else { 0 });
         let mrhs = s > 1 || flags & 0x101 == 0x101;
